@@ -121,7 +121,7 @@ class kani_adapter:
         out = {}
         harness_of = {o.id: o.harness for o in obls}
         tmo = max(o.timeout for o in obls) + 120
-        res, raw = kani.run_harnesses(scratch, [o.harness for o in obls], timeout=tmo)
+        res, raw = kani.run_harnesses(scratch, [o.harness for o in obls], timeout=tmo, jobs=int(os.environ.get('VERIF_KANI_JOBS', '0')) or None)
         ctx["notes"].append("kani: %d harnesses in one cargo-kani run" % len(obls))
         for o in obls:
             r = res[o.harness]
